@@ -89,6 +89,13 @@ class Recorder(io.TextIOBase):
         if not isinstance(s, str):
             raise TypeError('write() argument must be str, not %s'
                             % type(s).__name__)
+        if os.environ.get('ZTR_STRICT_STDOUT') and not s.isascii():
+            # a stream with a narrow, strict encoding (PYTHONIOENCODING=
+            # ascii, the C locale of an embedding program): run_internal()
+            # does not switch the std streams to backslashreplace
+            i = next(k for k, c in enumerate(s) if ord(c) > 127)
+            raise UnicodeEncodeError('ascii', s, i, i + 1,
+                                     'ordinal not in range(128)')
         self._add(s)
         return len(s)
 
